@@ -83,7 +83,7 @@ def add_params_to_qs(query, params):
     if isinstance(params, dict):
         params = params.items()
 
-    qs = urlparse.parse_qsl(query, keep_blank_values=True)
+    qs = urlparse.parse_qsl(to_unicode(query), keep_blank_values=True)
     qs.extend(params)
     return url_encode(qs)
 
